@@ -170,8 +170,46 @@ def history(rule, n, k, default_on, ops):
     return body
 
 
+def default_on_names(rule):
+    """default_on names a switch by equality: with names that contain one
+    another (the stock CONNECT / DISCONNECT) exactly the named switch starts On,
+    and the first definition a client gets satisfies the rule."""
+    def body(d: Draw):
+        from indi.device import Driver, properties
+        from indi.routing.router import Router
+        from indi.routing import Client
+        from indi import message
+        names = ("CONNECT", "DISCONNECT", "CONNECTED")
+        which = d.choice(names, "default-on")
+        as_tuple = d.bool("given-as-tuple")
+
+        class Drv(Driver):
+            name = "DEV"
+            main = properties.Group("MAIN", vectors=dict(sw=properties.SwitchVector(
+                "SW", rule=rule, default_on=((which,) if as_tuple else which),
+                elements=dict(a=properties.Switch(names[0]), b=properties.Switch(names[1]), c=properties.Switch(names[2])))))
+        got = []
+
+        class Rec(Client):
+            def message_from_device(self, m):
+                got.append(m)
+        router = Router()
+        rec = Rec()
+        router.register_client(rec)
+        drv = Drv(router=router)
+        on = [e.name for e in drv.main.sw._elements.values() if e._value == "On"]
+        router.process_message(message.GetProperties(version="1.7"), sender=rec)
+        defs = [m for m in got if type(m).__name__ == "DefSwitchVector"]
+        ok = on == [which] and len(defs) == 1 and [c.name for c in defs[0].children if c.value == "On"] == [which]
+        return verdict(ok, "default_on did not turn On exactly the named switch")
+    return body
+
+
 def conditions(tier):
     out = []
+    for rule in RULES:
+        out.append(Condition(f"default-on/{rule}", make_condition(default_on_names(rule), 0, 1, 1),
+                             about="default_on with switch names that contain one another", encodes=ENC, timeout=300))
     thorough = tier == "thorough"
     sizes = (1, 2, 3, 4, 5) if thorough else (1, 2, 3)
     for rule in RULES:
